@@ -61,6 +61,7 @@ def fn_text_of(gen, item, fn_short):
     return text[m.start():m.end() + n.start()] if n else text[m.start():]
 
 
+UNDERSPECIFIED_CALLS = {'from', 'into'}
 _CALL_KW = {'if', 'while', 'for', 'match', 'loop', 'return', 'fn', 'in', 'as', 'let', 'else', 'move', 'ensures', 'requires', 'invariant', 'decreases',
             'forall', 'exists', 'choose', 'assert', 'assume', 'proof', 'old', 'final', 'matches', 'is', 'by', 'implies', 'invariant_except_break'}
 
@@ -451,7 +452,9 @@ def check_property(prop, reg, args, seed):
                         # a call of a library function the function did not call on the unchanged tree: the verifier knows it only by
                         # vstd's specification, which may say less than the function does (e.g. `i128::from(u64)` has none)
                         if ob['id'] in base_calls:
-                            new_calls = sorted(c for c in call_names(fn_text_of(gen, item, fn_short)) if c not in base_calls[ob['id']])
+                            # restricted to the conversions that vstd accepts without saying what they return (probed: of 34 common std
+                            # functions every accepted one has an exact specification except the unsigned -> signed `from` / `into`)
+                            new_calls = sorted(c for c in call_names(fn_text_of(gen, item, fn_short)) if c not in base_calls[ob['id']] and c in UNDERSPECIFIED_CALLS)
                             if new_calls and 'needs_witness' not in rec:
                                 rec['needs_witness'] = 'the function now calls %s, which it does not call on the unchanged tree (a library function is known to the verifier only by the specification in vstd, which may say less than the function does)' % ', '.join(new_calls)[:200]
                     if item and any(l['fn'] == fn_short for l in item.get('lost_annotations', [])):
